@@ -1145,17 +1145,17 @@ func ruleFD4(c *Ctx) *rule {
 		// the hit decided by a predicate over the entries (slices.ContainsFunc / IndexFunc): its ways of returning true carry the guards
 		for _, g := range gs {
 			coll, pred, found, isSearch := searchTest(g.cond, g.pol)
-			if !isSearch || !found || !fw.fsTainted(c, coll) || len(pred.Params) != 1 {
+			if !isSearch || !found || !fw.fsTainted(c, coll) || predElem(pred) == nil {
 				continue
 			}
 			sets := c.trueGuardSets(pred)
 			allName, allDir := len(sets) > 0, len(sets) > 0
 			for _, set := range sets {
 				ne, de, _ := fdGuardFacts(set, nameConst)
-				if ne == nil || !sameOrigins(ne, pred.Params[0]) {
+				if ne == nil || !sameOrigins(ne, predElem(pred)) {
 					allName = false
 				}
-				if de == nil || !sameOrigins(de, pred.Params[0]) {
+				if de == nil || !sameOrigins(de, predElem(pred)) {
 					allDir = false
 				}
 			}
